@@ -243,20 +243,20 @@ Definition init_state_gen (r : store) (shared : bool) : state :=
      vmem := []; vfiles := [] |}.
 Definition init_state (r : store) : state := init_state_gen r false.
 
-(* One flag per former defect.  /repo HEAD is [Repaired] (all three fixed); the other variants exist only
-   for the historical [_refuted] witnesses in Properties.v and are not part of the correspondence. *)
+(* One flag per former defect.  /repo HEAD is [Repaired] (all fixed); the other variants exist only for the
+   historical [_refuted] witnesses in Properties.v and are not part of the correspondence. *)
 Record variant := {
   v_persist_first : bool;   (* Commit writes the startup file before it swaps running (fixed in /repo 1761ed1) *)
   v_set_atomic : bool;      (* a Set that fails in convertValue leaves the candidate untouched (fixed in 61c97e1) *)
   v_frr_restore : bool;     (* a failed routing-daemon reload is followed by a reload of the running config (fixed in e792c74) *)
-  v_report_restore : bool;  (* when that restoring reload fails too, the returned error says so (open: fixes/C13_report_restore) *)
+  v_report_restore : bool;  (* when that restoring reload fails too, the returned error says so (fixed in 4214320) *)
   v_boot_atomic : bool      (* ApplyLoadedConfig validates before it publishes and puts running back when it fails
-                               (open: fixes/C13_boot_atomic) *)
+                               (fixed in ce2c6ad) *)
 }.
 Definition mkv (a b c d e : bool) : variant :=
   {| v_persist_first := a; v_set_atomic := b; v_frr_restore := c; v_report_restore := d; v_boot_atomic := e |}.
-Definition Repaired : variant := mkv true true true true true.
-Definition Head : variant := mkv true true true false false.              (* /repo HEAD *)
+Definition Repaired : variant := mkv true true true true true.          (* /repo HEAD *)
+Definition PreAudit2 : variant := mkv true true true false false.         (* before 4214320 and ce2c6ad *)
 Definition RestoreUnreported : variant := mkv true true true false true.
 Definition BootUnatomic : variant := mkv true true true true false.
 Definition FrrDefect : variant := mkv true true false false false.         (* before e792c74 *)
